@@ -35,6 +35,7 @@ type Case struct {
 	Deleg  *DelegCase  `json:"deleg,omitempty"`
 	Member *MemberCase `json:"member,omitempty"`
 	Frame  *FrameCase  `json:"frame,omitempty"`
+	Queue  *QueueCase  `json:"queue,omitempty"`
 }
 
 type ChanOp struct {
@@ -177,6 +178,7 @@ type channelRig struct {
 	open       bool
 	peersCalls int
 	peersSum   int // sum of len(peers()) over calls
+	held       []heldMsg
 	stopc      chan struct{}
 	reg        *prometheus.Registry
 	logs       *capHandler
@@ -190,6 +192,7 @@ func newRig(key string) *channelRig {
 	send := func(b []byte) {
 		r.mu.Lock()
 		r.evs = append(r.evs, chanEv{msg: append([]byte(nil), b...)})
+		r.held = append(r.held, heldMsg{ref: b, copy: append([]byte(nil), b...)})
 		r.mu.Unlock()
 	}
 	peers := func() []*memberlist.Node {
@@ -206,6 +209,7 @@ func newRig(key string) *channelRig {
 	sendOversize := func(n *memberlist.Node, b []byte) error {
 		r.mu.Lock()
 		r.evs = append(r.evs, chanEv{rel: true, peer: n.Name, msg: append([]byte(nil), b...)})
+		r.held = append(r.held, heldMsg{ref: b, copy: append([]byte(nil), b...)})
 		fail := r.fail[n.Name]
 		g := r.gate
 		r.mu.Unlock()
@@ -234,6 +238,24 @@ func (r *channelRig) setEnv(peers, fail []string, gate bool) {
 		r.open = false
 	}
 	r.mu.Unlock()
+}
+
+// heldMsg: the slice a sender was handed, kept BY REFERENCE the way memberlist's TransmitLimitedQueue keeps a queued
+// broadcast until its retransmissions are done (and SendReliable keeps it while writing), next to a copy taken when
+// it was handed over.
+type heldMsg struct{ ref, copy []byte }
+
+// overwritten: how many messages handed to a sender earlier no longer hold the bytes they held then
+func (r *channelRig) overwritten() int {
+	r.mu.Lock()
+	defer r.mu.Unlock()
+	n := 0
+	for _, h := range r.held {
+		if string(h.ref) != string(h.copy) {
+			n++
+		}
+	}
+	return n
 }
 
 func (r *channelRig) takeEvents() []chanEv {
@@ -274,6 +296,7 @@ func runChan(t *testing.T, c *ChanCase) (term string, viols []vh.Violation, tags
 	synctest.Test(t, func(t *testing.T) {
 		r := newRig(key)
 		oversizeBcasts, relEvents, relFailEvents := 0, 0, 0
+		overwrittenReported := false
 		var pays [][2]int
 		for _, op := range c.Ops {
 			if op.Kind == "bcast" {
@@ -372,6 +395,11 @@ func runChan(t *testing.T, c *ChanCase) (term string, viols []vh.Violation, tags
 				r.mu.Lock()
 				open, taken := r.open, r.peersCalls
 				r.mu.Unlock()
+				// a message stays the sender's once handed over: later broadcasts must not change its bytes
+				if n := r.overwritten(); n > 0 && !overwrittenReported {
+					overwrittenReported = true
+					violate("sent-message-overwritten-by-later-broadcast", fmt.Sprintf("%d message(s) handed to a sender earlier (still queued for retransmission) changed their bytes after a later Broadcast on the same channel", n))
+				}
 				// a drop is legitimate only for an oversized Broadcast that found the queue full: a busy peer or a busy
 				// worker is not a reason to skip or drop
 				if d != d0 {
@@ -674,6 +702,9 @@ func TestCheck(t *testing.T) {
 		for i := 0; i < env.N(8, 4); i++ {
 			cases = append(cases, Case{Kind: "chan", Chan: genBackToBack(r.Fork())})
 		}
+		for i := 0; i < env.N(12, 5); i++ {
+			cases = append(cases, Case{Kind: "queue", Queue: genQueue(r.Fork())})
+		}
 		for i := 0; i < env.N(3, 3); i++ {
 			cases = append(cases, Case{Kind: "frame", Frame: genFrame(r.Fork())})
 		}
@@ -718,10 +749,18 @@ func TestCheck(t *testing.T) {
 		case "frame":
 			term, viols, tags = runFrame(t, c.Frame)
 			nontrivial = true
+		case "queue":
+			var terms []string
+			terms, viols, tags = runQueue(t, c.Queue)
+			for _, tm := range terms { // one KChan history per channel
+				run.Add(tm, c, true)
+			}
 		default:
 			continue
 		}
-		run.Add(term, c, nontrivial)
+		if term != "" {
+			run.Add(term, c, nontrivial)
+		}
 		for _, v := range viols {
 			run.Violate(v.Key, v.What, v.Case)
 		}
